@@ -548,7 +548,7 @@ def reactive(ctx):
     I.assumptions.append(last <= mono[0])
     exc = cond_or(c for c, _ in I.raises)
     did = cond_or(attended)
-    vars_ = {"last_attendance": last}
+    vars_ = {"last_attendance": last, "new_index": z3.Int("new_index")}
     vars_.update({t.decl().name(): t for t in mono})
     half = z3.RealVal("1/2")
 
@@ -559,12 +559,13 @@ def reactive(ctx):
         svc.last_subscription_time = vals["last_attendance"]
         n = []
         svc.attend_subscriptions = lambda: n.append(1)
-        maint.add_provider_data = lambda d: 7
+        new_index = int(vals.get("new_index", 7))          # the identifier the store hands out (0 for the first object)
+        maint.add_provider_data = lambda d: new_index
         ts = [vals[t.decl().name()] for t in mono]
         with mock.patch("time.monotonic", lambda: ts.pop(0) if len(ts) > 1 else ts[0]):
             r = svc.add_provider_data(mock.Mock())
         want = vals[mono[0].decl().name()] - vals["last_attendance"] >= 0.5
-        bad = bool(n) != want or r != 7 or (want and svc.last_subscription_time < vals[mono[0].decl().name()])
+        bad = bool(n) != want or r != new_index or (want and svc.last_subscription_time < vals[mono[0].decl().name()])
         return bad, f"reactive add {vals[mono[0].decl().name()] - vals['last_attendance']} s after the last attendance: attended={bool(n)}, returned {r}"
     ctx.witness("reactive-reach-attended", I, z3.And(z3.Not(exc), did), vars=vars_, validate=lambda v: not replay(v)[0], good=(did == (mono[0] - last >= half)))
     ctx.prove("reactive-no-exception", I, exc, vars=vars_, replay=replay)
